@@ -5,7 +5,7 @@ Property theorems only; helper lemmas live in `Lemmas/MpSync.lean`, the model in
 `mpSync evs` is what `MpSyncTightContext.drain` emits after the stage has buffered `evs`
 (`.error` = the Python exception class).  All statements are for arbitrary event lists.
 -/
-import AiuVerif.Lemmas.MpSync
+import AiuVerif.Lemmas.MpSyncEpoch
 
 namespace AiuVerif
 namespace C07
@@ -94,6 +94,90 @@ theorem sorted_out (evs out : List MEv) (h : mpSync evs = .ok out) :
     rw [show mpSyncG refOffset evs = mpSync evs from rfl, h] at this
     cases this
     exact sortOut_sorted _
+
+/-- **Blind to counter epochs.**  Let all device counters of rank `r` be offset by a constant
+(`c` µs `= K / soc_freq`, i.e. the device was powered on at a different time; `shiftRank r c` adds
+`c` to every `ts_dev` entry of every event of pid `r`).  Then the stage behaves identically: it
+raises the same error class, or emits the same events in the same order with the same `ts`, `dur`
+and `ts_all` — everything except the scratch copy `args.ts_dev`, which `cleanup_copy_of_device_ts`
+removes before export.  Hypothesis: device events carry non-negative pids (a negative pid would
+alias another rank through Python's negative list index). -/
+theorem epoch_invariant (evs : List MEv) (r : Int) (c : Rat)
+    (hpid : ∀ e ∈ evs, isDev e = true → 0 ≤ e.pid) :
+    (mpSync (evs.map (shiftRank r c))).map (fun out => out.map eraseDev) =
+      (mpSync evs).map (fun out => out.map eraseDev) :=
+  mpSync_shift r c evs hpid
+
+/-- a constant `K` on the cycle counters is the constant `K / f` on `ts_dev` (`_conv_DTS_to_array_in_us`) -/
+theorem epoch_counters (f : Rat) (K : Int) (cnt : List Int) :
+    convDev f (cnt.map (· + K)) = (convDev f cnt).map (· + (K : Rat) / f) := by
+  simp only [convDev, List.map_map]
+  apply List.map_congr_left
+  intro a _
+  simp only [Function.comp]
+  rw [Rat.intCast_add]; grind
+
+/-! ### regression sentinel: the reference offset before the repair (`oldRefOffset`) -/
+
+private def dev (uid : Nat) (pid : Int) (name : String) (ts dur : Rat) (cg : Option String) (l : List Rat) : MEv :=
+  { uid := uid, ph := "X", pid := pid, name := name, ts := ts, dur := some dur,
+    args := some { cg := cg, hasTS5 := true, tsDev := some l, tsAll := none } }
+private def host (uid : Nat) (pid : Int) (ts dur : Rat) : MEv :=
+  { uid := uid, ph := "X", pid := pid, name := "hostwork", ts := ts, dur := some dur,
+    args := some { cg := none, hasTS5 := false, tsDev := none, tsAll := none } }
+
+/-- three ranks, one group whose rank-0 names lack "AllReduce_all_reduce" (chain branch) -/
+def chain3 : List MEv := [
+  host 0 0 5 3,
+  dev 1 0 "Recv_0 DmaI" 20 1 (some "AllReduce_ar_0") [100, 101, 101, 101, 102],
+  dev 2 1 "Recv_0 DmaI" 20 1 (some "AllReduce_ar_0") [500, 503, 503, 503, 504],
+  dev 3 2 "Send_0 DmaO" 20 1 (some "AllReduce_ar_0") [900, 900, 900, 900, 905],
+  dev 4 1 "mm Cmpt Exec" 7 2 none [510, 510, 511, 513, 513]]
+
+/-- a two-rank trace whose rank-0 names carry the `[sync=AllReduce_all_reduce_…]` tag (tree branch) -/
+def tree2 : List MEv := [
+  host 0 0 5 3,
+  dev 1 0 "Send_0 [sync=AllReduce_all_reduce_0_x] DmaO" 20 1 (some "AllReduce_all_reduce_0") [100, 100, 100, 100, 101],
+  dev 2 1 "Recv_0 [sync=AllReduce_all_reduce_0_x] DmaI" 20 1 (some "AllReduce_all_reduce_0") [500, 503, 503, 503, 504],
+  dev 3 1 "mm Cmpt Exec" 7 2 none [510, 510, 511, 513, 513]]
+
+/-- **Sentinel.**  With the reference offset computed from rank 0's *raw* device time (the code before
+`fix: anchor multi-AIU alignment to rank 0's shifted device clock`) the epoch clause is false: on the
+three-rank chain trace `chain3`, offsetting rank 0's counters by 1000 µs moves every device slice. -/
+theorem epoch_dependent_chain3 :
+    (mpSyncG oldRefOffset (chain3.map (shiftRank 0 1000))).map (fun out => out.map eraseDev) ≠
+      (mpSyncG oldRefOffset chain3).map (fun out => out.map eraseDev) := by
+  decide +kernel
+
+/-- … and the old formula puts rank 0's own reference slice 402 µs (= `dts_shifts[0]`) away from its
+host time, while the repaired one keeps it there (`ts = 20`) -/
+theorem old_formula_displaces_rank0 :
+    ((mpSyncG oldRefOffset chain3).toOption.map fun out => (out.filter (·.uid = 1)).map (·.ts)) = some [422] ∧
+    ((mpSync chain3).toOption.map fun out => (out.filter (·.uid = 1)).map (·.ts)) = some [20] := by
+  decide +kernel
+
+/-! ### non-vacuity -/
+
+/-- `rigid_shift` / `rigid_shift_counters` apply to `tree2` and `chain3`: the stage aligns and does not raise;
+the two ranks of `tree2` get different offsets (-80 and -482) -/
+example : acts tree2 = true ∧ acts chain3 = true ∧
+    ((mpSync tree2).toOption.map fun out => out.map fun e => (e.uid, e.ts)) = some [(0, 5), (2, 18), (1, 20), (3, 29)] ∧
+    ((mpSync chain3).toOption.map fun out => out.map fun e => (e.uid, e.ts)) =
+      some [(0, 5), (3, 16), (2, 18), (1, 20), (4, 29)] := by decide +kernel
+
+/-- `ts_dev` of `tree2` is `convDev 512` of integer counters (hypothesis of `rigid_shift_counters`) -/
+example : convDev 512 [51200, 51200, 51200, 51200, 51712] = [100, 100, 100, 100, 101] := by decide +kernel
+
+/-- `epoch_invariant`'s hypothesis holds on both traces, and the transformation is not the identity there -/
+example : (∀ e ∈ chain3, isDev e = true → 0 ≤ e.pid) ∧ chain3.map (shiftRank 0 1000) ≠ chain3 := by decide +kernel
+
+/-- `no_action`: one rank with collectives only (`acts = false`), yet the list is not already sorted -/
+example : acts (tree2.filter (·.pid = 1)) = false ∧
+    mpSync (tree2.filter (·.pid = 1)) ≠ .ok (tree2.filter (·.pid = 1)) := by decide +kernel
+
+/-- `collective_free_untouched`: two ranks, no CollGroup anywhere -/
+example : ∀ e ∈ [host 0 0 5 3, dev 4 1 "mm Cmpt Exec" 7 2 none [510, 510, 511, 513, 513]], collKey e = none := by
+  decide +kernel
 
 end C07
 end AiuVerif
